@@ -51,6 +51,10 @@ pub struct WritersCase {
     pub c2s: PipeParams,
     pub yields: Vec<u8>,
     pub draw_seed: u64,
+    /// Some((n, secs)): the peer stops reading for `secs` virtual seconds once it has read n bytes
+    /// (a transport that stalls and recovers; with a small capacity the writers sit in their writes)
+    #[serde(default)]
+    pub stall: Option<(u16, u8)>,
 }
 
 pub struct WritersFam;
@@ -83,6 +87,7 @@ pub fn run_concurrent(case: &WritersCase) -> Result<ConcRun, Fail> {
     let c2s = case.c2s.clone();
     let yields = case.yields.clone();
     let seed = case.draw_seed;
+    let stall = case.stall;
     run_virtual(async move {
         install_draw(seed);
         let sched = install_schedule(yields);
@@ -93,10 +98,20 @@ pub fn run_concurrent(case: &WritersCase) -> Result<ConcRun, Fail> {
         let _keep_s_w = l.s_w.take();
         tokio::spawn(async move {
             let mut buf = vec![0u8; 65536];
+            let mut total = 0usize;
+            let mut stalled = false;
             loop {
-                match sr.read(&mut buf).await {
+                if let Some((n, secs)) = stall {
+                    if !stalled && total >= n as usize {
+                        stalled = true;
+                        tokio::time::sleep(tokio::time::Duration::from_secs(secs as u64)).await;
+                    }
+                }
+                // read in small pieces so that the stall point is hit closely
+                let lim = if stall.is_some() && !stalled { 16 } else { buf.len() };
+                match sr.read(&mut buf[..lim]).await {
                     Ok(0) | Err(_) => break,
-                    Ok(_) => {}
+                    Ok(k) => total += k,
                 }
             }
         });
@@ -179,7 +194,9 @@ pub fn run_concurrent(case: &WritersCase) -> Result<ConcRun, Fail> {
         // flush whatever a control-only run left in the initial buffer, and let forwarded data drain
         sess.disable_buffering();
         let _ = within(WATCHDOG, sess.write_control_frame(Frame::control(Command::HeartRequest, 0xFFFF))).await;
-        settle(tokio::time::Duration::from_secs(2)).await;
+        // forwarded data (send_data) is written by the session's own task: let it get through, also
+        // behind a stalled transport
+        settle(tokio::time::Duration::from_secs(2 + stall.map(|s| s.1 as u64 + 5).unwrap_or(0))).await;
         let subs: Vec<Vec<RFrame>> = subs.iter().map(|s| s.lock().unwrap().clone()).collect();
         Ok(ConcRun { raw: l.c2s.raw(), writes: l.c2s.writes(), subs, sched: sched.lock().unwrap().clone() })
     })
@@ -293,13 +310,16 @@ impl Family for WritersFam {
     fn strategy(&self, _tier: Tier) -> BoxedStrategy<WritersCase> {
         let scheme_sel = prop_oneof![3 => Just(SchemeSel::Default), 2 => Just(SchemeSel::Stop0)];
         let cap = prop_oneof![Just(16usize), Just(64), Just(1024), Just(1usize << 20)];
-        (scheme_sel, tasks_strategy(), cap, yields_strategy(), any::<u64>())
-            .prop_map(|(scheme, tasks, capacity, yields, draw_seed)| WritersCase {
+        let stall = proptest::option::weighted(0.3, (prop_oneof![Just(0u16), 1u16..600], prop_oneof![Just(1u8), Just(9), Just(11), Just(31), Just(61)]));
+        (scheme_sel, tasks_strategy(), cap, yields_strategy(), any::<u64>(), stall)
+            .prop_map(|(scheme, tasks, capacity, yields, draw_seed, stall)| WritersCase {
                 scheme,
                 tasks,
-                c2s: PipeParams { capacity, ..Default::default() },
+                // a stall only bites when the writers cannot get rid of their bytes
+                c2s: PipeParams { capacity: if stall.is_some() { capacity.min(64) } else { capacity }, ..Default::default() },
                 yields,
                 draw_seed,
+                stall,
             })
             .boxed()
     }
@@ -319,6 +339,7 @@ impl Family for WritersFam {
                     c2s: PipeParams::default(),
                     yields,
                     draw_seed: k as u64,
+                    stall: None,
                 });
             }
         }
@@ -336,6 +357,7 @@ impl Family for WritersFam {
         out.class_if(run.sched.points_with_yield.iter().any(|p| *p == "open_stream:before_syn"), "yield@open_stream:before_syn");
         out.class_if(run.sched.points_with_yield.iter().any(|p| *p == "process_stream_data:before_write"), "yield@process_stream_data");
         out.class_if(case.c2s.capacity <= 64, "transport-pending");
+        out.class_if(case.stall.is_some_and(|s| s.1 >= 11), "transport-stalled>10s");
         out.class_if(case.tasks.iter().any(|t| t.ops.iter().any(|o| matches!(o, TOp::Send(_)))), "send_data");
         Ok(out)
     }
